@@ -469,6 +469,13 @@ def _update_zo_file(
     )
     zo_path.write_text("\n".join(zlines))
 
-    _write_file_hash_to_disk(
-        _get_file_hash_path(zdir), _get_file_hash_map(zdir)
+    # Only this file was rewritten, so only its hash is refreshed. Refreshing
+    # the hash of every file would hide edits that have NOT been indexed yet.
+    file_hash_path = _get_file_hash_path(zdir)
+    file_to_hash: dict[str, str] = (
+        json.loads(file_hash_path.read_bytes())
+        if file_hash_path.exists()
+        else {}
     )
+    file_to_hash[c.strip_zdir(zdir, zo_path)] = _hash_file(zo_path)
+    _write_file_hash_to_disk(file_hash_path, file_to_hash)
